@@ -765,6 +765,14 @@ def cases(rng, tier):
         if (w_, n_, i_) in helper_of:
             c['helper'] = helper_of[(w_, n_, i_)]
         out.append(c)
+    # round 4 (appended last: the stream above is unchanged): directed calls at the corners the C10 index models point at —
+    # valid ones (must not crash) and degenerate ones (must raise or return, never crash or hang)
+    from .. import directed4
+    for call in directed4.valid_calls(rng):
+        if not too_expensive(call):
+            out.append(dict(kind='call', call=call, muts=[], valid=call))
+    for call, muts in directed4.degenerate_calls(rng):
+        out.append(dict(kind='call', call=call, muts=muts, valid=call))
     return out
 
 
